@@ -521,3 +521,22 @@ def write_replay(ctx, payload, tag="w"):
     with open(path, "w") as f:
         json.dump(payload, f, indent=1, default=str)
     return os.path.relpath(path, VERIF)
+
+
+# ----------------------------------------------------------------------------------------------
+# regression corpus of repaired defects: corpus/defects/<cxx>_*.py exit 0 when the defect is absent
+# ----------------------------------------------------------------------------------------------
+def run_defect_corpus(ctx):
+    import glob
+    files = sorted(glob.glob(os.path.join(VERIF, "corpus", "defects", f"{ctx.prop.lower()}_*.py")))
+    for f in files:
+        try:
+            p = subprocess.run([sys.executable, f], capture_output=True, text=True, timeout=300)
+        except subprocess.TimeoutExpired:
+            ctx.oracle_fail(f"regression witness {os.path.basename(f)} timed out", {"script": os.path.relpath(f, VERIF)})
+            continue
+        ctx.evaluations += 1
+        ctx.branch("defect_corpus")
+        if p.returncode != 0:
+            ctx.oracle_fail(f"repaired defect is back: {os.path.basename(f)}: {(p.stdout + p.stderr)[-600:]}",
+                            {"script": os.path.relpath(f, VERIF), "doc": open(f).read().split('\"\"\"')[1] if '\"\"\"' in open(f).read() else ""})
